@@ -1,18 +1,27 @@
 package p_blocka
 
 import (
+	"bytes"
+	"context"
 	"fmt"
+	"runtime"
 	"sort"
 	"strings"
+	"sync"
+	"sync/atomic"
 	"testing"
 	"time"
 
+	"github.com/pkg/errors"
 	"github.com/spikeekips/mitum/base"
 	"github.com/spikeekips/mitum/isaac"
+	isaacblock "github.com/spikeekips/mitum/isaac/block"
 	"github.com/spikeekips/mitum/util"
+	"github.com/spikeekips/mitum/util/hint"
 	"pgregory.net/rapid"
 	"verif/internal/chain"
 	"verif/internal/ev"
+	"verif/internal/gen"
 )
 
 // C10: the same proposal over the same prior state gives the same manifest, whatever the worker count and schedule.
@@ -20,6 +29,12 @@ import (
 // Metamorphic oracle: one proposal is processed R times by the real DefaultProposalProcessor on fresh writers with
 // different worker sizes, GOMAXPROCS and injected delays; all R manifests must agree in hash, operations-tree root,
 // states-tree root and suffrage hash (or all runs must fail alike).
+//
+// "The same prior state" is taken literally for the last 2..4 runs of every proposal: they are processed over one set of
+// in-memory prior state objects (a GetStateFunc that hands out the same base.State for a key every time, as the state
+// cache of the permanent database does when a height is processed again in the next round). Besides the manifests being
+// equal, the canonical bytes of every prior state handed out must be unchanged after each run: a processing that
+// rewrites its own input is not a function of (proposal, operations, prior state).
 func TestC10(t *testing.T) {
 	r := ev.Start(t, "C10")
 	defer r.Finish()
@@ -31,14 +46,20 @@ func TestC10(t *testing.T) {
 		"invalid (wrong start, foreign/alias-key/too few signers, duplicates for one node, two keys for one address, several policy " +
 		"operations), fetch outcomes {ok, not found, invalid, known, nil}, plus 0..n-required expels in the INIT voteproof; each proposal is " +
 		"processed R=6 (thorough 8) times (2-3 proposals per prior chain) with MaxWorkerSize and writer workers in {1,2,3,8,64}, GOMAXPROCS in {1,4,16} and delay patterns " +
-		"{none, reverse-merge, yield, even-late, drawn}. non-trivial: >=2 operations merged a value into the same suffrage/candidates state " +
+		"{none, reverse-merge, yield, even-late, drawn}; the first R-k runs read freshly decoded prior states, the last k=2..4 runs (drawn) share ONE set of " +
+		"in-memory prior state objects (re-processing of a height over a state cache), whose canonical bytes are compared before/after every run; " +
+		"2 of 3 proposals also carry directed valid operations that drop a candidate that is not the last of the prior candidates list " +
+		"(join of an active one / re-registration of an expired one) and a disjoin of a member that is not the last of the prior suffrage; " +
+		"3 deterministic re-processing cases (active4, mixed, expired2) with exactly these operations. non-trivial: >=2 operations merged a value into the same suffrage/candidates state " +
 		"key and >=2 distinct worker sizes with at least one >1 were used; distinct by (scenario, operation list, expels)")
 	r.Floor(int64(r.N(20, 300)))
 	r.MaxSamples(6)
 	r.Assume("every operation in a proposal satisfies IsValid (pool admission) and proposals carry unique operation and fact hashes (ProposalFact.IsValid)",
 		"INIT voteproofs carry only expels that pass isaac.IsValidVoteproofWithSuffrage, at most n-required of them",
 		"harness filler operations write disjoint keys (last-writer-wins on one key by two operations is outside the statement)",
-		"sleep/yield injection only perturbs the schedule; no timing enters the verdict")
+		"sleep/yield injection only perturbs the schedule; no timing enters the verdict",
+		"a node may hand the very same in-memory base.State objects to several processings of one height (isaacdatabase permanent state cache, "+
+			"proposal re-processed in a later round): prior states are inputs, a processing must leave their encoded form untouched")
 
 	runs := r.N(6, 8)
 	perWorld := r.N(2, 3) // proposals per prior chain (building the chain costs as much as a few runs)
@@ -64,6 +85,31 @@ func TestC10(t *testing.T) {
 		}
 	})
 
+	// ---- B. re-processing over shared prior state objects, deterministically: a join and an expired re-registration that
+	// drop candidates which are not the last of the list, a disjoin (and a voteproof expel) of members that are not last
+	t.Run("reprocess", func(t *testing.T) {
+		for i, sc := range []baScenario{
+			{N: 3, Th: 67, Life: 2, Script: "active4"},
+			{N: 4, Th: 67, Life: 2, Script: "mixed"},
+			{N: 3, Th: 67, Life: 1, Script: "expired2"},
+		} {
+			if !r.Mine(i) {
+				continue
+			}
+
+			w, err := baGetWorld(sc)
+			if err != nil {
+				t.Fatalf("harness: build prior chain %s: %+v", sc, err)
+			}
+
+			c10Reprocess(t, r, w, sc)
+		}
+	})
+
+	if r.Failed() {
+		return // a violation is already on record; nothing to add by searching on
+	}
+
 	r.Checks(32, 700)
 	r.ShrinkTime(60 * time.Second)
 
@@ -87,6 +133,7 @@ func TestC10(t *testing.T) {
 func c10Proposal(rt *rapid.T, r *ev.Rec, w *baWorld, sc baScenario, runs int, salt string) {
 	{
 		ops := baGenOps(rt, w, baGenCfg{MaxOps: 40}, salt)
+		ops = c10GenDirected(rt, w, ops, salt)
 		expels, expeldesc := baGenExpels(rt, w)
 
 		if err := baCheckOpsValid(w, ops); err != nil {
@@ -108,6 +155,10 @@ func c10Proposal(rt *rapid.T, r *ev.Rec, w *baWorld, sc baScenario, runs int, sa
 		workerSizes := map[int64]bool{}
 		parallel := false
 
+		// the last nshared runs are processed over one set of in-memory prior state objects
+		nshared := min(rapid.IntRange(2, 4).Draw(rt, "sharedruns"), runs-1)
+		prior := c10NewPrior(w)
+
 		for i := 0; i < runs; i++ {
 			o := baGenRunOpts(rt, len(ops)+len(expels))
 			o.FetchError = fetchError
@@ -124,12 +175,31 @@ func c10Proposal(rt *rapid.T, r *ev.Rec, w *baWorld, sc baScenario, runs int, sa
 				parallel = true
 			}
 
-			res, herr := baProcess(w, pr, ops, expels, o)
+			var res baResult
+			var herr error
+
+			if i < runs-nshared {
+				res, herr = baProcess(w, pr, ops, expels, o)
+			} else {
+				res, herr = c10ProcessOver(w, pr, ops, expels, o, prior.get)
+			}
+
 			if herr != nil {
 				rt.Fatalf("harness: run %d (%s): %+v", i, o, herr)
 			}
 
 			results[i] = res
+
+			if i >= runs-nshared {
+				// ---- oracle: the processing left its input (the prior states it was handed) as it was
+				if ms, herr := prior.mutated(); herr != nil {
+					rt.Fatalf("harness: %+v", herr)
+				} else if len(ms) > 0 {
+					r.Violation(rt, "prior-state-mutated", "processing a proposal changed the prior state objects it read (%s, height %d): run %d (%s), %d-th run over the same in-memory prior states\n %s\n operations: %s\n voteproof expels: %v",
+						sc, w.H, i, o, i-(runs-nshared)+1, strings.Join(ms, "\n "), strings.Join(baDescs(ops), " | "), expeldesc)
+					prior = c10NewPrior(w) // known finding: go on with intact objects
+				}
+			}
 		}
 
 		// ---- oracle: every run agrees with run 0
@@ -232,6 +302,12 @@ func c10Proposal(rt *rapid.T, r *ev.Rec, w *baWorld, sc baScenario, runs int, sa
 		default:
 			classes = append(classes, "samekey:<2")
 		}
+
+		if base0.Err == nil {
+			classes = append(classes, c10DropClasses(w, base0)...)
+		}
+
+		classes = append(classes, fmt.Sprintf("sharedruns:%d", nshared))
 
 		// the class the design suspected: two candidate operations with different keys for an expired candidate's address
 		if c10ExpiredTwoKeys(w, ops) {
@@ -463,4 +539,571 @@ func c10Suspect(t *testing.T, r *ev.Rec, w *baWorld, sc baScenario) {
 	r.Sample(map[string]any{"kind": "suspected expired-candidate duplicate", "prior": w.Desc(), "operations_and_results": verdicts,
 		"candidates_after": c10RenderState(first.NewStates[isaac.SuffrageCandidateStateKey]), "runs": len(optss)})
 	r.Case("suspect#"+sc.String(), true, "suspect:deterministic-case", "script:"+sc.Script)
+}
+
+// ---------------------------------------------------------------------------------------------------------------------
+// one set of in-memory prior state objects, handed out again and again
+
+type c10PriorEntry struct {
+	st     base.State
+	found  bool
+	enc    []byte // canonical (JSON) bytes when first handed out
+	vhash  []byte // Value().HashBytes() when first handed out
+	render string
+}
+
+// c10Prior is a GetStateFunc over the world's database that decodes every key once and then hands out the same
+// base.State object (what the state cache of the permanent database does); it remembers the encoded form of each.
+type c10Prior struct {
+	mu      sync.Mutex
+	w       *baWorld
+	entries map[string]*c10PriorEntry
+}
+
+func c10NewPrior(w *baWorld) *c10Prior {
+	return &c10Prior{w: w, entries: map[string]*c10PriorEntry{}}
+}
+
+func c10EncodeState(w *baWorld, st base.State) (enc, vhash []byte, _ error) {
+	b, err := w.W.Enc.Marshal(st)
+	if err != nil {
+		return nil, nil, errors.WithMessagef(err, "encode prior state %q", st.Key())
+	}
+
+	if st.Value() != nil {
+		vhash = st.Value().HashBytes()
+	}
+
+	return b, vhash, nil
+}
+
+func (p *c10Prior) get(key string) (base.State, bool, error) {
+	p.mu.Lock()
+	defer p.mu.Unlock()
+
+	if e, ok := p.entries[key]; ok {
+		return e.st, e.found, nil
+	}
+
+	st, found, err := p.w.W.DB.State(key)
+	if err != nil {
+		return nil, false, err
+	}
+
+	e := &c10PriorEntry{st: st, found: found}
+
+	if found {
+		if e.enc, e.vhash, err = c10EncodeState(p.w, st); err != nil {
+			return nil, false, err
+		}
+
+		e.render = c10RenderState(st)
+	}
+
+	p.entries[key] = e
+
+	return e.st, e.found, nil
+}
+
+// mutated lists (sorted by key) the prior states whose encoded form is no longer what it was when first handed out.
+// Call it only while no processing runs.
+func (p *c10Prior) mutated() ([]string, error) {
+	p.mu.Lock()
+	defer p.mu.Unlock()
+
+	keys := make([]string, 0, len(p.entries))
+	for k := range p.entries {
+		keys = append(keys, k)
+	}
+
+	sort.Strings(keys)
+
+	var out []string
+
+	for _, k := range keys {
+		e := p.entries[k]
+		if !e.found {
+			continue
+		}
+
+		enc, vhash, err := c10EncodeState(p.w, e.st)
+		if err != nil {
+			return nil, err
+		}
+
+		if bytes.Equal(enc, e.enc) && bytes.Equal(vhash, e.vhash) {
+			continue
+		}
+
+		out = append(out, fmt.Sprintf("prior state %q (hash %s, height %d): handed out as %s ; after the run it reads %s",
+			k, e.st.Hash(), e.st.Height(), e.render, c10RenderState(e.st)))
+	}
+
+	return out, nil
+}
+
+// c10ProcessOver is baProcess with the prior state taken from getState instead of a fresh database read: the real
+// DefaultProposalProcessor, operation processors, isaacblock.Writer over the local-fs writer and the center's
+// block-write database; the writer is cancelled afterwards, the world is unchanged.
+func c10ProcessOver(w *baWorld, pr base.ProposalSignFact, ops []baOp, expels []base.SuffrageExpelOperation, o baRunOpts, getState base.GetStateFunc) (res baResult, harnessErr error) {
+	cw := w.W
+	prev := cw.Last().Manifest()
+	point := pr.Point()
+
+	if o.Procs > 0 {
+		defer runtime.GOMAXPROCS(runtime.GOMAXPROCS(o.Procs))
+	}
+
+	if o.WriterWorkers < 1 {
+		o.WriterWorkers = o.Workers
+	}
+
+	opm := map[string]int{}
+	for i := range ops {
+		opm[ops[i].Op.Hash().String()] = i
+	}
+
+	oprs := cw.OperationProcessors()
+
+	var rw *baRecWriter
+	var rdb *baRecDB
+	var rfs *baRecFS
+	var realWriter *isaacblock.Writer
+
+	args := isaac.NewDefaultProposalProcessorArgs()
+	args.MaxWorkerSize = o.Workers
+	args.NewWriterFunc = func(proposal base.ProposalSignFact, getStateFunc base.GetStateFunc) (isaac.BlockWriter, error) {
+		dbw, err := cw.DB.NewBlockWriteDatabase(proposal.Point().Height())
+		if err != nil {
+			return nil, err
+		}
+
+		fsw, err := isaacblock.NewLocalFSWriter(cw.Root, proposal.Point().Height(), cw.Enc, cw.Enc, cw.Local, cw.NetworkID)
+		if err != nil {
+			return nil, err
+		}
+
+		rdb = &baRecDB{BlockWriteDatabase: dbw, states: map[string]base.State{}}
+		rfs = &baRecFS{FSWriter: fsw}
+		realWriter = isaacblock.NewWriter(proposal, getStateFunc, rdb, cw.DB.MergeBlockWriteDatabase, rfs, o.WriterWorkers)
+		rw = &baRecWriter{BlockWriter: realWriter, noise: o.Noise, instate: map[string]bool{}, reason: map[string]string{}, mergeops: map[string]int{}}
+
+		return rw, nil
+	}
+	args.GetStateFunc = func(key string) (base.State, bool, error) {
+		baDelay(o.Noise.State)
+
+		return getState(key)
+	}
+	args.GetOperationFunc = func(_ context.Context, oph, fact util.Hash) (base.Operation, error) {
+		i, found := opm[oph.String()]
+		if !found {
+			return nil, isaac.ErrOperationNotFoundInProcessor.Errorf("operation not found")
+		}
+
+		baDelay(baAt(o.Noise.Fetch, uint64(i)))
+
+		if i == o.FetchError {
+			return nil, errBaFetch
+		}
+
+		switch ops[i].Fetch {
+		case "notfound":
+			return nil, isaac.ErrOperationNotFoundInProcessor.Errorf("operation not found")
+		case "invalid":
+			return nil, isaac.ErrInvalidOperationInProcessor.Errorf("verif says invalid")
+		case "processed":
+			return nil, isaac.ErrOperationAlreadyProcessedInProcessor.Errorf("known")
+		case "nilop":
+			return nil, nil
+		case "utilinvalid":
+			return nil, util.ErrInvalid.Errorf("verif says not valid")
+		}
+
+		return ops[i].Op, nil
+	}
+	args.NewOperationProcessorFunc = func(height base.Height, ht hint.Hint, getStatef base.GetStateFunc) (base.OperationProcessor, error) {
+		v, found := oprs.Find(ht)
+		if !found {
+			return nil, nil
+		}
+
+		return v(height, getStatef)
+	}
+
+	pp, err := isaac.NewDefaultProposalProcessor(pr, prev, args)
+	if err != nil {
+		return res, err
+	}
+
+	var voters []base.LocalNode
+
+	for _, m := range w.Members {
+		out := false
+
+		for _, e := range expels {
+			if e.ExpelFact().Node().Equal(m.Node.Address()) {
+				out = true
+			}
+		}
+
+		if !out {
+			voters = append(voters, m.Node)
+		}
+	}
+
+	ifact := isaac.NewINITBallotFact(point, prev.Hash(), pr.Fact().Hash(), gen.ExpelFactHashes(expels))
+	ivp := gen.FullINITVoteproof(ifact, voters, cw.Threshold, expels)
+
+	if len(expels) > 0 {
+		// input-domain guard: the processor only ever sees voteproofs that passed full validation
+		if err := ivp.IsValid(cw.NetworkID); err != nil {
+			return res, errors.WithMessage(err, "generated INIT voteproof is not valid")
+		}
+
+		nodes := make([]base.Node, len(w.Members))
+		for i := range w.Members {
+			nodes[i] = w.Members[i].Node
+		}
+
+		suf, err := isaac.NewSuffrage(nodes)
+		if err != nil {
+			return res, err
+		}
+
+		if err := isaac.IsValidVoteproofWithSuffrage(ivp, suf); err != nil {
+			return res, errors.WithMessage(err, "generated INIT voteproof is not valid with the suffrage")
+		}
+	}
+
+	m, perr := pp.Process(context.Background(), ivp)
+	_ = pp.Cancel()
+
+	if perr != nil {
+		res.Err = perr
+		res.ErrClass = baErrClass(perr)
+
+		return res, nil
+	}
+
+	res.Manifest = m
+
+	// wait (progress counters, no verdict from time) until every job the writer queued has run, then cancel it
+	wantStates := func() int64 {
+		if m.StatesTree() == nil {
+			return 0
+		}
+
+		if n := atomic.LoadInt64(&rfs.total); n > 0 {
+			return n
+		}
+
+		return 1 << 40 // not announced yet
+	}
+
+	deadline := time.Now().Add(60 * time.Second)
+
+	for {
+		done := atomic.LoadInt64(&rdb.nops) >= atomic.LoadInt64(&rw.nresults) &&
+			atomic.LoadInt64(&rfs.nops) >= atomic.LoadInt64(&rw.nstates) &&
+			atomic.LoadInt64(&rdb.nsts) >= wantStates() &&
+			atomic.LoadInt64(&rfs.nmanifest) >= 1
+		if done {
+			break
+		}
+
+		if time.Now().After(deadline) {
+			return res, errors.Errorf("block writer did not become quiet: ops %d/%d fsops %d/%d states %d/%d manifest %d",
+				rdb.nops, rw.nresults, rfs.nops, rw.nstates, rdb.nsts, wantStates(), rfs.nmanifest)
+		}
+
+		time.Sleep(50 * time.Microsecond)
+	}
+
+	rw.mu.Lock()
+	res.InState = rw.instate
+	res.Reason = rw.reason
+	res.MergeOps = rw.mergeops
+	rw.mu.Unlock()
+
+	rdb.mu.Lock()
+	res.NewStates = rdb.states
+	rdb.mu.Unlock()
+
+	if err := realWriter.Cancel(); err != nil {
+		return res, errors.WithMessage(err, "cancel writer")
+	}
+
+	return res, nil
+}
+
+// ---------------------------------------------------------------------------------------------------------------------
+// directed operations: entries that are not the last of the prior lists leave them
+
+func c10MemberNodes(w *baWorld) []base.LocalNode {
+	ns := make([]base.LocalNode, len(w.Members))
+	for i := range w.Members {
+		ns[i] = w.Members[i].Node
+	}
+
+	return ns
+}
+
+// c10DropCandidateOp: a valid operation that takes entry i of the prior candidates list out of it: the join of an
+// unexpired candidate (signed by the candidate and every member) or the re-registration of an expired one.
+func c10DropCandidateOp(w *baWorld, i int, token string) baOp {
+	c := w.Cands[i]
+	addr := c.Node.Address()
+
+	if c.Deadline >= w.H {
+		signers := append([]base.LocalNode{c.Node}, c10MemberNodes(w)...)
+
+		o := baOp{Kind: "join", Op: chain.JoinOp(token, addr, c.Start, signers), Fetch: "ok", Target: addr.String(), Start: c.Start,
+			Desc: fmt.Sprintf("join(%s:active,candidate#%d/%d,members=%d/%d)", addr, i, len(w.Cands), len(w.Members), len(w.Members))}
+
+		for _, s := range signers {
+			o.Signers = append(o.Signers, baIdentOf(s))
+		}
+
+		return o
+	}
+
+	return baOp{Kind: "candidate", Op: chain.CandidateOp(token, c.Node, c.Node), Fetch: "ok", Target: addr.String(), Key: c.Node.Publickey().String(),
+		Signers: []baIdent{baIdentOf(c.Node)}, Desc: fmt.Sprintf("candidate(%s:expired,candidate#%d/%d)", addr, i, len(w.Cands))}
+}
+
+// c10DisjoinMemberOp: a valid disjoin of entry i of the prior suffrage.
+func c10DisjoinMemberOp(w *baWorld, i int, token string) baOp {
+	m := w.Members[i]
+
+	return baOp{Kind: "disjoin", Op: chain.DisjoinOp(token, m.Node.Address(), m.Start, m.Node), Fetch: "ok", Target: m.Node.Address().String(), Start: m.Start,
+		Signers: []baIdent{baIdentOf(m.Node)}, Desc: fmt.Sprintf("disjoin(%s:member#%d/%d)", m.Node.Address(), i, len(w.Members))}
+}
+
+func c10InsertOp(ops []baOp, at int, o baOp) []baOp {
+	out := make([]baOp, 0, len(ops)+1)
+	out = append(out, ops[:at]...)
+	out = append(out, o)
+
+	return append(out, ops[at:]...)
+}
+
+// c10GenDirected adds (2 of 3 proposals each) a valid drop of a candidate that is not the last of the prior list and a
+// valid disjoin of a member that is not the last of the prior suffrage, at drawn positions.
+func c10GenDirected(t *rapid.T, w *baWorld, ops []baOp, salt string) []baOp {
+	if len(w.Cands) >= 2 && rapid.IntRange(0, 2).Draw(t, "dropcandidate") != 2 {
+		i := rapid.IntRange(0, len(w.Cands)-2).Draw(t, "dropcandidateat")
+		ops = c10InsertOp(ops, rapid.IntRange(0, len(ops)).Draw(t, "dropcandidatepos"), c10DropCandidateOp(w, i, salt+"-directed-candidate"))
+	}
+
+	if len(w.Members) >= 2 && rapid.IntRange(0, 2).Draw(t, "dropmember") != 2 {
+		i := rapid.IntRange(0, len(w.Members)-2).Draw(t, "dropmemberat")
+		ops = c10InsertOp(ops, rapid.IntRange(0, len(ops)).Draw(t, "dropmemberpos"), c10DisjoinMemberOp(w, i, salt+"-directed-member"))
+	}
+
+	return ops
+}
+
+// c10DropClasses: which entries of the prior lists are gone in the block's new states (coverage classes).
+func c10DropClasses(w *baWorld, res baResult) []string {
+	var classes []string
+
+	if st := res.NewStates[isaac.SuffrageCandidateStateKey]; st != nil {
+		if v, ok := st.Value().(base.SuffrageCandidatesStateValue); ok {
+			nonlast, last := false, false
+
+			for i, c := range w.Cands {
+				kept := false
+
+				for _, n := range v.Nodes() {
+					if n.Address().Equal(c.Node.Address()) && n.Start() == c.Start {
+						kept = true
+					}
+				}
+
+				switch {
+				case kept:
+				case i < len(w.Cands)-1:
+					nonlast = true
+				default:
+					last = true
+				}
+			}
+
+			if nonlast {
+				classes = append(classes, "drops:candidate-not-last")
+			}
+
+			if last {
+				classes = append(classes, "drops:candidate-last")
+			}
+		}
+	}
+
+	if st := res.NewStates[isaac.SuffrageStateKey]; st != nil {
+		if v, ok := st.Value().(base.SuffrageNodesStateValue); ok {
+			nonlast, last := false, false
+
+			for i, m := range w.Members {
+				kept := false
+
+				for _, n := range v.Nodes() {
+					if n.Address().Equal(m.Node.Address()) {
+						kept = true
+					}
+				}
+
+				switch {
+				case kept:
+				case i < len(w.Members)-1:
+					nonlast = true
+				default:
+					last = true
+				}
+			}
+
+			if nonlast {
+				classes = append(classes, "drops:member-not-last")
+			}
+
+			if last {
+				classes = append(classes, "drops:member-last")
+			}
+		}
+	}
+
+	return classes
+}
+
+// c10Reprocess: one proposal that drops candidates and members which are not the last of their prior lists, processed
+// four times over the same in-memory prior state objects.
+func c10Reprocess(t *testing.T, r *ev.Rec, w *baWorld, sc baScenario) {
+	salt := "c10-reprocess-" + sc.String()
+
+	var ops []baOp
+
+	// every candidate but the last leaves the list (join when unexpired, re-registration when expired)
+	for i := 0; i < len(w.Cands)-1; i++ {
+		ops = append(ops, c10DropCandidateOp(w, i, fmt.Sprintf("%s-c%d", salt, i)))
+	}
+
+	if len(ops) < 1 {
+		t.Fatalf("harness: scenario %s has fewer than 2 candidates", sc)
+	}
+
+	fresh := baFresh()
+	ops = append(ops, baOp{Kind: "candidate", Op: chain.CandidateOp(salt+"-fresh", fresh[0], fresh[0]), Fetch: "ok", Target: fresh[0].Address().String(),
+		Key: fresh[0].Publickey().String(), Desc: fmt.Sprintf("candidate(%s:fresh)", fresh[0].Address())})
+
+	// a member in the middle of the suffrage leaves; another one is expelled by the voteproof when the threshold allows
+	var expels []base.SuffrageExpelOperation
+	var expeldesc []string
+
+	n := len(w.Members)
+	disjoin := n - 2
+
+	if n-w.Required >= 1 && n >= 4 {
+		x := w.Members[1]
+
+		var live []base.LocalNode
+
+		for i, m := range w.Members {
+			if i != 1 {
+				live = append(live, m.Node)
+			}
+		}
+
+		expels = append(expels, gen.Expel(x.Node.Address(), max(base.GenesisHeight+1, w.H-1), w.H+2, live))
+		expeldesc = append(expeldesc, x.Node.Address().String())
+	}
+
+	if disjoin >= 0 {
+		ops = c10InsertOp(ops, 1, c10DisjoinMemberOp(w, disjoin, salt+"-d"))
+	}
+
+	if err := baCheckOpsValid(w, ops); err != nil {
+		t.Fatalf("harness: %+v", err)
+	}
+
+	pr, err := baProposal(w, ops)
+	if err != nil {
+		t.Fatalf("harness: %+v", err)
+	}
+
+	optss := []baRunOpts{
+		{Workers: 1, WriterWorkers: 1, Noise: baNoise{Name: "none"}, FetchError: -1},
+		{Workers: 64, WriterWorkers: 64, Procs: 16, Noise: baNoise{Name: "none"}, FetchError: -1},
+		{Workers: 1, WriterWorkers: 1, Noise: baNoise{Name: "none"}, FetchError: -1},
+		{Workers: 3, WriterWorkers: 8, Procs: 4, Noise: baNoise{Name: "yield", Merge: []int{1, 1, 1, 1, 1, 1}, State: 1}, FetchError: -1},
+	}
+
+	prior := c10NewPrior(w)
+
+	var first baResult
+
+	for i, o := range optss {
+		res, herr := c10ProcessOver(w, pr, ops, expels, o, prior.get)
+		if herr != nil {
+			t.Fatalf("harness: %+v", herr)
+		}
+
+		if res.Err != nil {
+			t.Fatalf("harness: processing failed: %+v", res.Err)
+		}
+
+		switch ms, herr := prior.mutated(); {
+		case herr != nil:
+			t.Fatalf("harness: %+v", herr)
+		case len(ms) > 0:
+			r.Violation(t, "prior-state-mutated", "processing a proposal changed the prior state objects it read (%s, height %d): run %d (%s) over the same in-memory prior states\n %s\n operations: %s\n voteproof expels: %v",
+				sc, w.H, i, o, strings.Join(ms, "\n "), strings.Join(baDescs(ops), " | "), expeldesc)
+			prior = c10NewPrior(w)
+		}
+
+		if i == 0 {
+			first = res
+
+			continue
+		}
+
+		var diffs []string
+		if !first.Manifest.Hash().Equal(res.Manifest.Hash()) {
+			diffs = append(diffs, "hash")
+		}
+
+		if !hashEq(first.Manifest.OperationsTree(), res.Manifest.OperationsTree()) {
+			diffs = append(diffs, "operations-tree")
+		}
+
+		if !hashEq(first.Manifest.StatesTree(), res.Manifest.StatesTree()) {
+			diffs = append(diffs, "states-tree")
+		}
+
+		if !hashEq(first.Manifest.Suffrage(), res.Manifest.Suffrage()) {
+			diffs = append(diffs, "suffrage")
+		}
+
+		if len(diffs) > 0 {
+			r.Violation(t, "manifest-differs-"+c10Cause(first, res, diffs),
+				"same proposal, same in-memory prior state objects (%s, height %d), different manifests (%s differ)\n run 0 (%s): %s\n run %d (%s): %s\n operations: %s\n voteproof expels: %v\n %s",
+				sc, w.H, strings.Join(diffs, ","), optss[0], first.manifestSig(), i, o, res.manifestSig(), strings.Join(baDescs(ops), " | "), expeldesc, c10StateDiff(first, res))
+		}
+	}
+
+	classes := append([]string{"reprocess:deterministic-case", "script:" + sc.Script}, c10DropClasses(w, first)...)
+
+	// harness self-check (no verdict): the case is the class it claims to be
+	if !strings.Contains(strings.Join(classes, " "), "drops:candidate-not-last") {
+		t.Fatalf("harness: re-processing case %s dropped no candidate that is not the last: %s", sc, c10RenderState(first.NewStates[isaac.SuffrageCandidateStateKey]))
+	}
+
+	var verdicts []string
+	for i := range ops {
+		verdicts = append(verdicts, fmt.Sprintf("%s -> instate=%v %s", ops[i].Desc, first.InState[ops[i].fact()], first.Reason[ops[i].fact()]))
+	}
+
+	r.Sample(map[string]any{"kind": "re-processing over shared prior state objects", "prior": w.Desc(), "operations_and_results": verdicts,
+		"voteproof_expels": expeldesc, "candidates_after": c10RenderState(first.NewStates[isaac.SuffrageCandidateStateKey]),
+		"suffrage_after": c10RenderState(first.NewStates[isaac.SuffrageStateKey]), "runs": len(optss)})
+	r.Case("reprocess#"+sc.String(), true, classes...)
 }
